@@ -147,6 +147,30 @@ pub fn eval(c: &Case) -> Eval {
         }
         other => return Err(Fail::new(format!("reload after re-dumping slightly different parameters failed: {:?}", other.map(|r| r.map(|_| ()))))),
     }
+    // re-dumps that differ from what the directory holds in exactly ONE of the four parameters must replace it as well
+    {
+        let b_alt = if c.b.0 > 1.5 { 1.25 } else { 1.75 };
+        let a_alt = if c.a.0 > 1.0 { c.a.0 / 2.0 } else { c.a.0 * 2.0 };
+        let variants: [(&str, SetSketchParams); 5] = [
+            ("b", SetSketchParams::new(b_alt, c.m, c.a.0, c.q)),
+            ("m", SetSketchParams::new(c.b.0, c.m ^ 1, c.a.0, c.q)),
+            ("a", SetSketchParams::new(c.b.0, c.m, a_alt, c.q)),
+            ("q", SetSketchParams::new(c.b.0, c.m, c.a.0, c.q ^ 1)),
+            ("q", SetSketchParams::new(c.b.0, c.m, c.a.0, if c.q == 254 { 65534 } else { 254 })),
+        ];
+        for (name, v) in variants.iter() {
+            ensure!(matches!(catch(|| p.dump_json(&dir.0)), Ok(Ok(()))), "dump_json failed");
+            ensure!(matches!(catch(|| v.dump_json(&dir.0)), Ok(Ok(()))), "dump_json of parameters differing only in {} from the previous dump failed", name);
+            match catch(|| SetSketchParams::reload_json(&dir.0)) {
+                Ok(Ok(got)) => {
+                    ensure!(got.get_m() == v.get_m() && got.get_q() == v.get_q(), "after re-dumping parameters that differ only in {} from the previous dump ({:?} over {:?}) reload returns {:?}", name, v, p, got);
+                    float_ok("b (re-dump differing in one parameter)", v.get_b(), got.get_b())?;
+                    float_ok("a (re-dump differing in one parameter)", v.get_a(), got.get_a())?;
+                }
+                other => return Err(Fail::new(format!("reload after a re-dump differing only in {} failed: {:?}", name, other.map(|r| r.map(|_| ()))))),
+            }
+        }
+    }
     // restore the original dump for the crash-point enumeration
     ensure!(matches!(catch(|| p.dump_json(&dir.0)), Ok(Ok(()))), "dump_json failed");
     let bytes = std::fs::read(&file).map_err(|e| Fail::new(format!("cannot read back the dump: {}", e)))?;
@@ -166,19 +190,100 @@ pub fn eval(c: &Case) -> Eval {
         .class(format!("file-bytes<={}", ((bytes.len() + 19) / 20) * 20)))
 }
 
+/// child side of `missing-directory`: the working directory of this (child) process is set to a directory that holds a valid dump;
+/// reloading from directories that do not exist (relative and absolute spellings) and from an existing empty directory must give Err
+pub fn child(inp: &Value) -> Value {
+    let scratch = std::path::PathBuf::from(inp["scratch"].as_str().unwrap_or("/nonexistent"));
+    let c: Case = match serde_json::from_value(inp["case"].clone()) {
+        Ok(c) => c,
+        Err(_) => return serde_json::json!({"error": "bad case"}),
+    };
+    let mut out = serde_json::Map::new();
+    if std::fs::create_dir_all(scratch.join("empty")).is_err() || std::env::set_current_dir(&scratch).is_err() {
+        return serde_json::json!({"error": "cannot enter the scratch directory"});
+    }
+    let p = SetSketchParams::new(c.b.0, c.m, c.a.0, c.q);
+    let here = std::path::PathBuf::from(".");
+    out.insert("dump_ok".into(), Value::Bool(matches!(catch(|| p.dump_json(&here)), Ok(Ok(())))));
+    out.insert("reload_here_ok".into(), Value::Bool(matches!(catch(|| SetSketchParams::reload_json(&here)), Ok(Ok(_)))));
+    let probes: Vec<(String, std::path::PathBuf)> = vec![
+        ("a relative directory that does not exist".into(), std::path::PathBuf::from("no-such-directory")),
+        ("a nested relative directory that does not exist".into(), std::path::PathBuf::from("no/such/directory")),
+        ("an absolute directory that does not exist".into(), scratch.join("missing-directory")),
+        ("an existing empty directory".into(), scratch.join("empty")),
+        ("the empty path".into(), std::path::PathBuf::from("")),
+    ];
+    let mut bad = vec![];
+    for (name, path) in probes {
+        match catch(|| SetSketchParams::reload_json(&path)) {
+            Ok(Err(_)) => {}
+            // the empty path designates the working directory on some platforms' join semantics: "" joined with the file name IS the file
+            // in the working directory, so Ok is legitimate there and not judged
+            Ok(Ok(_)) if name == "the empty path" => {}
+            Ok(Ok(got)) => bad.push(format!("reload_json from {} ({}) returned parameters {:?} while the working directory holds a dump", name, path.display(), got)),
+            Err(pn) => bad.push(format!("reload_json from {} ({}) aborted: {}", name, path.display(), pn)),
+        }
+    }
+    out.insert("bad".into(), serde_json::json!(bad));
+    Value::Object(out)
+}
+
+fn missing_directory(ctx: &Ctx, c: &Case) {
+    let dir = match TempDir::new() {
+        Ok(d) => d,
+        Err(f) => {
+            ctx.infra(f.reason);
+            return;
+        }
+    };
+    let input = serde_json::json!({"scratch": dir.0.to_string_lossy(), "case": c});
+    match run_child("c20", &input, std::time::Duration::from_secs(120), &[]) {
+        ChildOutcome::Done(v) => {
+            if v.get("error").is_some() || v["dump_ok"] != Value::Bool(true) || v["reload_here_ok"] != Value::Bool(true) {
+                ctx.infra(format!("C20 missing-directory child could not set up its directory: {}", v));
+                return;
+            }
+            let bad: Vec<String> = serde_json::from_value(v["bad"].clone()).unwrap_or_default();
+            if let Some(b) = bad.first() {
+                ctx.violation("missing-directory", c, b);
+                return;
+            }
+            ctx.record("missing-directory", c, &Report::new(true).class("working-directory-holds-a-dump"), true);
+        }
+        ChildOutcome::Crashed(w, e) => ctx.violation("missing-directory", c, &format!("the child process reloading from missing directories terminated abnormally ({}): {}", w, e)),
+        ChildOutcome::Timeout => ctx.infra("C20 missing-directory child timed out"),
+        ChildOutcome::Infra(e) => ctx.infra(e),
+    }
+}
+
 pub fn run(ctx: &Ctx) {
     ctx.set_rule("proptest generates (b, m, a, q): b in (1,2] and a in [1e-6, 1e9] from short decimals (<= 15 digits), typical parameter values, random bit patterns (17 digits), values 1 + k*eps; integers over all of u64 incl. 2^53 +- 1 and u64::MAX. \
-        Oracle: dump into a private directory then reload gives m and q exactly, a and b bit-exactly when their shortest decimal form has <= 15 significant digits and within 1 ulp otherwise; a second dump replaces the file; \
-        then EVERY strict prefix of the written file (0..len-1 bytes) is written back as the crash point and reload_json must return Err (not Ok, not a panic); a missing file must give Err. \
+        Oracle: dump into a private directory then reload gives m and q exactly, a and b bit-exactly when their shortest decimal form has <= 15 significant digits and within 1 ulp otherwise; a second dump replaces the file, also when it differs from the previous one in a single parameter (b, m, a or q alone) or by one ulp; \
+        then EVERY strict prefix of the written file (0..len-1 bytes) is written back as the crash point and reload_json must return Err (not Ok, not a panic); a missing file must give Err; sub-check missing-directory: in a child process whose working directory holds a valid dump, reloading from directories that do not exist (relative, nested, absolute) and from an existing empty directory must give Err. \
         Non-trivial = at least one float needs 17 digits. Distinct = distinct parameter tuple. The crash-point enumeration per generated file is exhaustive.");
     ctx.assume("b is generated inside its documented interval (1,2] and a between 1e-6 and 1e9: for magnitudes like 1e-143 serde_json's default number parser is 1 ulp off even for 15-digit decimals, which is outside what the parameters can meaningfully be");
     super::run_fixed_tier(ctx, replay);
     let cases = ctx.tier.pick(40_000, 800_000);
     ctx.drive("roundtrip-and-prefixes", cases, 16, 600, strategy, eval);
+    // a directory that does not exist, while the working directory of the process holds a valid dump (child processes: the working
+    // directory is process-wide state)
+    let n = ctx.tier.pick(6, 40);
+    let mut r = SmRng::new(mix(&[ctx.seed, 0xC20]));
+    for _ in 0..n {
+        let c = Case { b: F(1.0 + (1 + r.below(1000)) as f64 / 1000.0), m: 1 + r.below(100_000), a: F(0.5 + r.below(60) as f64), q: 1 + r.below(70_000) };
+        missing_directory(ctx, &c);
+        if ctx.n_violations() > 0 {
+            break;
+        }
+    }
 }
 
 pub fn replay(ctx: &Ctx, sub: &str, case: &Value) -> Result<(), String> {
     let c: Case = parse_case(case)?;
+    if sub == "missing-directory" {
+        missing_directory(ctx, &c);
+        return Ok(());
+    }
     ctx.run_fixed(sub, &c, eval);
     Ok(())
 }
